@@ -226,12 +226,19 @@ func c06GlobBody(size int, prefill []string, threads [][]string) func(x *vsched.
 
 // ---------- C06 scenario 4 / C02: lookups concurrent with SetTable ----------
 
+// the two tables differ in every route and in their host patterns (exact host +
+// host-less vs. wildcard host + another exact host)
 const c02TableA = "route add a1 foo.com/x http://a1:80/\nroute add a2 /y http://a2:80/\n"
-const c02TableB = "route add b1 foo.com/x http://b1:80/ opts \"deny=ip:1.2.3.4\"\nroute add b2 /y http://b2:80/\n"
+const c02TableB = "route add b1 *.com/x http://b1:80/ opts \"deny=ip:1.2.3.4\"\nroute add b2 bar.org/y http://b2:80/\n"
 
 // every reader does lookups on two requests that tell A from B on two routes;
 // each pair must come from one table, and per reader the tables are monotone.
 func c02SwapBody(nReaders, rounds int, withNil bool) func(x *vsched.X) {
+	return c02SwapBodyW(nReaders, rounds, withNil, false)
+}
+
+// oneWay: the writer installs B and stops (the final table is B)
+func c02SwapBodyW(nReaders, rounds int, withNil, oneWay bool) func(x *vsched.X) {
 	return func(x *vsched.X) {
 		A, B := mustTable(c02TableA), mustTable(c02TableB)
 		SetTable(A)
@@ -246,7 +253,9 @@ func c02SwapBody(nReaders, rounds int, withNil bool) func(x *vsched.X) {
 			if withNil {
 				SetTable(nil)
 			}
-			SetTable(A)
+			if !oneWay {
+				SetTable(A)
+			}
 		})
 		for i := 0; i < nReaders; i++ {
 			i := i
@@ -289,8 +298,42 @@ func c02SwapBody(nReaders, rounds int, withNil bool) func(x *vsched.X) {
 				}
 			}
 		}
-		if got := GetTable().String(); got != A.String() {
+		final := A
+		if oneWay {
+			final = B
+		}
+		if got := GetTable().String(); got != final.String() {
 			x.Fail("final-table-not-last-installed", got)
+		}
+	}
+}
+
+// ---------- C06 scenario 5: access decisions of concurrent requests from different peers ----------
+
+func c06AccessBody(rule string, peers []string, wantDenied []bool, rounds int) func(x *vsched.X) {
+	return func(x *vsched.X) {
+		tbl := mustTable("route add svc /p http://a:80/ opts \"" + rule + "\"\n")
+		gc := NewGlobCache(10)
+		got := make([][]bool, len(peers))
+		for i := range peers {
+			i := i
+			x.Go(fmt.Sprintf("req%d", i), func() {
+				for k := 0; k < rounds; k++ {
+					r := vfReq("foo.com", "/p", false)
+					r.RemoteAddr = peers[i]
+					tg := tbl.Lookup(r, "", rrPicker, prefixMatcher, gc, false)
+					got[i] = append(got[i], tg.AccessDeniedHTTP(r))
+				}
+			})
+		}
+		x.Run()
+		for i := range peers {
+			for _, d := range got[i] {
+				if d != wantDenied[i] {
+					x.Fail("access-decision-of-another-request", map[string]interface{}{"peer": peers[i], "denied": d, "want": wantDenied[i], "rule": rule})
+					return
+				}
+			}
 		}
 	}
 }
@@ -315,6 +358,8 @@ func TestVerifC06Sched(t *testing.T) {
 		{"glob-size2-evict3", 1, 2, c06GlobBody(2, []string{"*.a.com", "*.b.com"}, [][]string{{"*.c.com"}, {"*.d.com"}, {"*.a.com"}})},
 		{"glob-same-pattern", 2, 3, c06GlobBody(2, nil, [][]string{{"*.a.com", "*.b.com"}, {"*.a.com", "*.c.com"}})},
 		{"swap-cross-effects", 1, 2, c02SwapBody(2, 1, false)},
+		{"access-allow-2peers", 2, 3, c06AccessBody("allow=ip:10.0.0.0/8", []string{"10.1.1.1:1", "1.2.3.4:2"}, []bool{false, true}, 2)},
+		{"access-deny-3peers", 1, 2, c06AccessBody("deny=ip:10.0.0.0/8", []string{"10.1.1.1:1", "1.2.3.4:2", "10.2.2.2:3"}, []bool{true, false, true}, 1)},
 	}
 	schedRun(L, scs, 240, 2400)
 	L.End(true)
@@ -346,6 +391,8 @@ func TestVerifC02Sched(t *testing.T) {
 		{"swap-2readers", 1, 3, c02SwapBody(2, 1, false)},
 		{"swap-nil-ignored", 2, 3, c02SwapBody(1, 2, true)},
 		{"swap-2readers-2rounds", 1, 2, c02SwapBody(2, 2, true)},
+		{"swap-3readers-one-way", 1, 2, c02SwapBodyW(3, 1, false, true)},
+		{"swap-2readers-2rounds-one-way", 1, 2, c02SwapBodyW(2, 2, false, true)},
 	}
 	schedRun(L, scs, 120, 1800)
 	L.End(true)
